@@ -1,0 +1,17 @@
+//go:build verif
+
+package types
+
+// Contracts for the deductive checker in /verif (comment-only; compiled only with -tags verif).
+// Stateless message validation, as far as the C12 message handlers rely on it.
+
+/*@
+func (MsgFund).ValidateBasic
+    ensures valid: result == nil ==> coins_isvalid(msg.Amount)
+func (MsgTransferOwnership).ValidateBasic
+    ensures pure_check: true
+func (MsgTransferOwnershipWithRatio).ValidateBasic
+    ensures ratio: result == nil ==> msg.Ratio > 0 && msg.Ratio <= dec_one()
+func (MsgTransferOwnershipWithAmount).ValidateBasic
+    ensures valid: result == nil ==> coins_isvalid(msg.Amount)
+@*/
